@@ -330,6 +330,17 @@ pub fn replay_doc(prep: &Prepared, gen: Option<(u64, u64, &str)>, op: &StoreOp, 
 
 fn job_workload(master: u64, job: u64, tier: Tier) -> Vec<u8> {
     let mut rng = Rng::new(derive(master ^ 0xb10b, job));
+    if job % 16 == 5 {
+        // a large incompressible file (stored media, encrypted data): the zstd frame consists of
+        // raw blocks and is larger than the expanded form minus nothing
+        let len = rng.range(660_000, 1_400_000) as usize;
+        let mut f = workload::gen_incompressible(&mut rng, len);
+        if rng.chance(1, 2) {
+            let wl = workload::gen_file(&mut rng, workload::SMALL);
+            f.extend_from_slice(&wl.file);
+        }
+        return f;
+    }
     let sc = match (tier, job % 10) {
         (Tier::Quick, 9) => workload::MEDIUM,
         (Tier::Quick, _) => workload::SMALL,
